@@ -294,18 +294,17 @@ Proof.
     rewrite Forall_forall in F. assert (snd c < 32) by (apply F; eapply nth_error_In; exact Hc). lia.
 Qed.
 
-Lemma encode_string_pack d s : code_ok (h_cw d) -> Forall (fun x => x < 256) s -> s <> [] ->
+Lemma encode_string_pack d s : code_ok (h_cw d) -> Forall (fun x => x < 256) s ->
   exists bytes off, encode_string d s = Some (bytes, off) /\ pack_string (h_cw d) s = Some (bytes, off).
 Proof.
-  intros (Hlen & CP & CA & CL & F31) Fs Hne.
+  intros (Hlen & CP & CA & CL & F31) Fs.
   assert (Fs' : Forall (fun x => x < lenN (h_cw d)) s) by (rewrite Hlen; exact Fs).
   destruct (pack_symbols_total (h_cw d) s ([], 0, 0) Fs') as [st' E].
   destruct (pack_bits_bytes (h_cw d) s _ st' [] (check_lengths_sound _ CL) pinv_init E) as [enc [Ee [_ Hl]]].
   pose proof (encode_bits_len31 _ F31 _ _ Ee) as H31.
   exists (final_bytes st'), (snd st'). unfold encode_string, pack_string. rewrite E.
-  destruct s as [|x s]; [congruence|].
-  destruct (N.ltb_spec (lenN (fst (fst st'))) (4 * lenN (x :: s))) as [_|Hbad]; [split; reflexivity|].
-  exfalso. cbn [length Nat.add] in Hl. rewrite lenN_cons in *. lia.
+  destruct (N.ltb_spec (lenN (fst (fst st'))) (4 * lenN s + 1)) as [_|Hbad]; [split; reflexivity|].
+  exfalso. cbn [length Nat.add] in Hl. lia.
 Qed.
 
 (* ====================================================================== *)
@@ -677,7 +676,6 @@ Section Stream.
     intros Hnq Hq256. unfold htfc_locate.
     destruct (encode_string_pack d (q ++ [0]) Hcode) as (bq & oq & Ees & Pq).
     { apply Forall_app. split; [exact Hq256|]. constructor; [lia|constructor]. }
-    { destruct q; discriminate. }
     rewrite Ees.
     destruct (hlocate_bucket_spec q bq oq Hnq Pq) as (found & k & Elb & Hk & Hpost). rewrite Elb.
     destruct found.
@@ -2477,11 +2475,7 @@ End Prefix.
 
 Lemma encode_string_pack_any d p : code_ok (h_cw d) -> Forall (fun x => x < 256) p ->
   exists enc o, encode_string d p = Some (enc, o) /\ pack_string (h_cw d) p = Some (enc, o).
-Proof.
-  intros Hc Hp. destruct p as [|x p].
-  - exists [], 0. split; reflexivity.
-  - apply (encode_string_pack d (x :: p) Hc Hp). discriminate.
-Qed.
+Proof. apply encode_string_pack. Qed.
 
 Theorem htfc_locate_prefix_ok d b S : htfc_ok d b S -> S <> [] -> Forall nul_free S -> sorted_lt S ->
   forall p, nul_free p -> Forall (fun c => c < 256) p ->
